@@ -301,6 +301,16 @@ def c05(c):
     c.small("MC_Precomp", cfg="MC_Precomp.cfg", workers=8)
     progs = c.generate("Gen_Commit")
     files = c.drive("commit", progs, shards=vlib.NCPU if not quick else 8)
+    # the configuration (CRS, precomputed tables: built by parallel workers) created on machines with 3 (thorough: 1, 3, 5, 7) CPUs:
+    # table rows, vectors, the CRS check and the reuse programs again
+    sub = os.path.join(c.dir, "prog-commit-cpu.jsonl")
+    with open(sub, "w") as fh:
+        for ln in open(progs):
+            if json.loads(ln)["kind"] in ("table", "vec", "crs", "reuse", "lin"):
+                fh.write(ln)
+    for ncpu in ([3] if quick else [1, 3, 5, 7]):
+        if ncpu < vlib.NCPU:
+            files += c.drive("commit", sub, name="tr-cpu%d" % ncpu, shards=4, taskset="0-%d" % (ncpu - 1))
     c.validate("Trace_Commit", files, heap="6g", timeout=3600)
     need = ["crs_check", "table", "linlaw", "vec/rnd", "vec/empty", "vec/rminus1", "vec/hot", "digit/half", "digit/half+1", "digit/max", "digit/0"]
     missing = [k for k in need if c.judged.get(k, 0) == 0]
@@ -328,16 +338,27 @@ def c09(c):
     c.small("MC_MsmChan", cfg="MC_MsmChan_overflow.cfg", workers=4, expect_violation=True)
     progs = c.generate("Gen_MSM")
     files = c.drive("msm", progs, shards=vlib.NCPU, timeout=3600)
+    # the default task count (NbTasks = 0 -> runtime.NumCPU()) and ipa.MultiScalar on machines with 3 and 5 (thorough: 1, 2, 3, 5, 6, 7, 12) CPUs
+    sub = os.path.join(c.dir, "prog-msm-cpu.jsonl")
+    with open(sub, "w") as fh:
+        for ln in open(progs):
+            pr = json.loads(ln)
+            if (pr["kind"] == "api" and pr["tasks"] == 0 and pr["points"] == "srs") or pr["kind"] in ("multiscalar", "reuse"):
+                fh.write(ln)
+    for ncpu in ([3, 5] if quick else [1, 2, 3, 5, 6, 7, 12]):
+        if ncpu < vlib.NCPU:
+            files += c.drive("msm", sub, name="tr-cpu%d" % ncpu, shards=4, timeout=3600, taskset="0-%d" % (ncpu - 1))
     c.validate("Trace_MSM", files, heap="6g", timeout=3600)
     need = ["api", "multiscalar", "mismatch"] + ["inner/c%d" % k for k in (4, 5, 6, 7, 8, 9, 10, 11, 12, 13, 14, 15, 16)] + ["inner/c20/split", "inner/c21/split", "inner/c6/split"]
     missing = [k for k in need if c.judged.get(k, 0) == 0]
     c.guard(not missing, "classes without any member: %s" % missing)
-    c.count_classes(files, lambda e: (e["kind"], e["n"], e["tasks"], e["mont"], e["small"], e["pcls"], e["scls"], e.get("c"), e.get("split")))
+    c.count_classes(files, lambda e: (e["kind"], e["n"], e["tasks"], e["mont"], e["small"], e["pcls"], e["scls"], e.get("c"), e.get("split"), e.get("numcpu")))
     c.samples.append({"kind": "api", "n": 17, "tasks": 3, "mont": True, "points": "proj", "scalars": "edge", "note": "events carry all points (affine) and scalars; abbreviated"})
     return c.finish(rule="MultiExp through the group-level entry point for every n at which the chosen window changes (from the chooser model) +-1 and the structural sizes 0..257 x NbTasks "
                          "{0,1,3,16,64,1024,..} x both scalar forms; point classes (SRS, duplicates, with identity, sign-flipped, projective, all equal) x scalar classes (random, zero, one, edge values, "
                          "all-ones windows, half-range windows) ; small-scalar shares 9/10/11/50/100 %; the internal entry point for every implemented window c in 4..16,20,21 with and without "
-                         "first-chunk split incl. decoding of the partitioned scalars; length mismatch; ipa.MultiScalar; distinct = distinct parameter tuples", min_events=500)
+                         "first-chunk split incl. decoding of the partitioned scalars, with repeated points / P next to -P / identity for every width; length mismatch; ipa.MultiScalar; MultiExpAffine; the same slices "
+                         "after in-place changes; the default task count under taskset with 3 and 5 (thorough 1,2,3,5,6,7,12) CPUs; distinct = distinct parameter tuples", min_events=500)
 
 
 # ------------------------------------------------------------------------------------------ proof family: C01 C02 C03 C04 C10
